@@ -16,6 +16,9 @@ from procsim import HEADER_RE, SENTINEL_MTIME, base_env, crc32_hex, run_child, s
 PREFIXES = ["", "use a;", "use a", "use a;\nuse b;", "// p", "pub struct ImJustHereToConfuse;"]
 PREFIXES_FORMAT = ["", "use a;", "use a;\nuse b;", "// p", "use  a ;", "pub struct   S ;"]
 
+FUTURE_MTIME = 2208988800  # 2040-01-01
+GRAMMAR_MTIMES = {"now": None, "old": 631152000, "future": 2240611200, "same_as_destination": "dest"}
+
 INVALID_SYNTAX = [b"@export\nA = 'a' ;;\n", b"A = ( 'a' ;\n", b"@export A 'a';\n", b"A = 'a'"]
 INVALID_SEMANTIC = [b"@export\n@string\nA = 'a';\n", b"A = !(x:B) 'a';\nB = 'b';\n", b"A = @:B c:C;\nB = 'b';\nC = 'c';\n", b"A = >Missing;\n"]
 INVALID_UTF8 = [b"@export\nA = 'a';\n# \xff\xfe\n", b"A = '\xc3';\n"]
@@ -47,7 +50,9 @@ def gen_history(seed, i, valid, tier):
     mode = rng.weighted([("file", 50), ("dir", 50)])
     fmt = rng.coin(200)
     cfg = {"id": i, "mode": mode, "format": fmt, "entropy": rng.below(1 << 62),
-           "explicit_dest": mode == "file" and rng.coin(500)}
+           "explicit_dest": mode == "file" and rng.coin(500),
+           # modification times are simulated state: the destination's sentinel may be older or newer than the grammars
+           "dest_mtime": rng.choice([SENTINEL_MTIME, FUTURE_MTIME])}
     if mode == "file":
         slots = ["g0.ebnf"]
     else:
@@ -57,7 +62,7 @@ def gen_history(seed, i, valid, tier):
     ops = []
     # initial state: every slot gets a valid grammar (mostly) so that the first run can succeed
     for s in range(len(slots)):
-        ops.append(["edit", s, "valid", rng.below(len(valid))])
+        ops.append(["edit", s, "valid", rng.below(len(valid)), "now"])
     if rng.coin(500):
         ops.append(["prefix", rng.below(len(prefixes))])
     ops.append(["run"])
@@ -65,11 +70,12 @@ def gen_history(seed, i, valid, tier):
     for _ in range(n):
         k = rng.weighted([("edit_valid", 22), ("edit_bad", 14), ("prefix", 18), ("delete", 10), ("run", 36)])
         if k == "edit_valid":
-            ops.append(["edit", rng.below(len(slots)), "valid", rng.below(len(valid))])
+            # "old": content changes but the file looks older than the destination (cp -p, restored backup, renamed into place)
+            ops.append(["edit", rng.below(len(slots)), "valid", rng.below(len(valid)), rng.weighted([("now", 50), ("old", 25), ("future", 10), ("same_as_destination", 15)])])
         elif k == "edit_bad":
             kinds = ["syntax", "semantic", "utf8", "removed", "dangling", "eio"] + (["is_dir"] if mode == "file" else [])
             kind = rng.choice(kinds)
-            ops.append(["edit", rng.below(len(slots)), kind, rng.below(4)])
+            ops.append(["edit", rng.below(len(slots)), kind, rng.below(4), rng.weighted([("now", 60), ("old", 30), ("same_as_destination", 10)])])
         elif k == "prefix":
             ops.append(["prefix", rng.below(len(prefixes))])
         elif k == "delete":
@@ -186,8 +192,13 @@ def execute_history(cfg, d, valid, scratch, stats=None):
             elif kind != "removed":
                 with open(p, "wb") as f:
                     f.write(sl.text)
+                mt = GRAMMAR_MTIMES.get(op[4] if len(op) > 4 else "now")
+                if mt == "dest":
+                    mt = cfg.get("dest_mtime", SENTINEL_MTIME)
+                if mt is not None:
+                    os.utime(p, (mt, mt))
             changed_since_ok = True
-            trace.append("edit:%s" % kind)
+            trace.append("edit:%s%s" % (kind, "" if len(op) < 5 or op[4] == "now" else "@" + op[4]))
         elif op[0] == "prefix":
             newp = prefixes[op[1] % len(prefixes)]
             if newp != prefix:
@@ -207,7 +218,7 @@ def execute_history(cfg, d, valid, scratch, stats=None):
             for s in range(len(slots)):
                 dp = dest_of(cfg, d, s)
                 if os.path.isfile(dp):
-                    os.utime(dp, (SENTINEL_MTIME, SENTINEL_MTIME))
+                    os.utime(dp, (cfg.get("dest_mtime", SENTINEL_MTIME), cfg.get("dest_mtime", SENTINEL_MTIME)))
                 before[s] = snapshot(dp)
             expected = {}
             for s in in_scope:
@@ -386,11 +397,12 @@ def run(tier, seed, replay_path=None):
             "operation_counts": op_counts,
             "violation_classes_seen": classes,
             "faults_fired": {"EIO_on_grammar_open": stats["eio_fired"],
-                             "unreadable_or_invalid_grammar_edits": sum(c for k, c in op_counts.items() if k.startswith("edit:") and k != "edit:valid")},
+                             "unreadable_or_invalid_grammar_edits": sum(c for k, c in op_counts.items() if k.startswith("edit:") and not k.startswith("edit:valid")),
+                             "grammar_mtime_skewed_edits": sum(c for k, c in op_counts.items() if "@" in k)},
             "runs_per_hour": int(n / max(wall, 1e-6) * 3600),
             "known_findings_hit": sorted(known_hit),
             "real_components": ["peginator_codegen::Compile from the working tree (driver compile)", "rustfmt (format histories)", "kernel file system"],
-            "stubbed_components": ["EIO on open of a grammar is injected by the shim", "entropy of every child is seeded", "file timestamps: destinations are set to a sentinel mtime before every run"],
+            "stubbed_components": ["EIO on open of a grammar is injected by the shim", "entropy of every child is seeded", "file timestamps are simulated state: destinations get a seeded sentinel mtime (2001 or 2040) before every run, edited grammars a seeded mtime (now, 1990, 2041, same as destination)"],
         }
         write_evidence("C18", tier, seed, "exploration", coverage, wall, nviol, [
             "reference model = the same Compile invocation into an empty directory (relies on C16: code generation is deterministic)",
@@ -420,7 +432,7 @@ def describe(cfg, valid):
     prefixes = PREFIXES_FORMAT if cfg["format"] else PREFIXES
     for op in cfg["ops"]:
         if op[0] == "edit":
-            out.append("edit %s -> %s #%d" % (cfg["slots"][op[1]], op[2], op[3]))
+            out.append("edit %s -> %s #%d (mtime %s)" % (cfg["slots"][op[1]], op[2], op[3], op[4] if len(op) > 4 else "now"))
         elif op[0] == "prefix":
             out.append("prefix %r" % prefixes[op[1] % len(prefixes)])
         elif op[0] == "delete":
